@@ -555,6 +555,18 @@ def run_case(ctx, case: Dict[str, Any], suite: str, cuts: int = 0, cut_rng: Opti
             fail(sig, text, ri, hist)
         for sig, text in oracle_faults(hist, W, rd["mode"], res.deadlock, job.files, rd["path"], injected):
             fail(sig, text, ri, hist)
+        # ---- after a faulty attempt: whatever became visible must still be complete (nothing, or a full snapshot)
+        if injected and not res.deadlock:
+            r = open_and_restore(dict(job.files), rd["path"], W, rd["spec"])
+            if r["open"] == "ok":
+                bad = [x for x in r.get("restore", []) if x != "equal"]
+                if bad:
+                    summary["failures"].append(("committed-but-incomplete", "after fault", ri))
+                    if not quiet:
+                        ctx.fail("committed-but-incomplete",
+                                 f"a storage write failed, yet readable metadata was committed and restore is not exact: {bad[:2]}",
+                                 replay_case, {"round": ri, "faults": rd.get("faults"), "restore": r["restore"],
+                                               "history": compact(hist)[-40:]}, suite=suite)
         # ---- crash cuts (fault-free attempts only: the cut store is compared with the saved state)
         if cuts and not injected:
             rng = cut_rng or random.Random(0)
